@@ -628,21 +628,21 @@ def gen_poly(rng, n, fname='bls12_381_fr'):
 
     def raw_terms(terms):
         """raw argument of SparsePolynomial::from_coefficients_vec for the polynomial {deg: coeff}: the non-zero
-        terms in any order, then (sometimes) zero-coefficient terms of other degrees at the END of the list, where
-        the constructor pops them.
-        # DEFECT-1: a zero-coefficient term anywhere else is kept by the constructor (non-canonical value), and
-        # duplicate degrees have no single meaning (evaluate sums them, the dense conversion keeps the last):
-        # neither is generated."""
+        terms in any order, with (sometimes) zero-coefficient terms of other degrees anywhere in the list (the
+        constructor drops them: F28, fixed in /repo).  Duplicate degrees have no single meaning (evaluate sums them,
+        the dense conversion keeps the last; the constructor documents that it does not combine them): not generated."""
         t = [(d, c) for d, c in terms if c % p]
         flags = ''
         if len(t) > 1 and rng.randrange(2):
             rng.shuffle(t); flags += '/unsorted'
-        if rng.randrange(4) == 0:
+        if rng.randrange(3) == 0:
             used = {d for d, _ in t}
             for _ in range(rng.randrange(1, 3)):
                 d = rng.choice([0, 1, 2, 7, 40, 300])
                 if d not in used:
-                    used.add(d); t.append((d, 0)); flags += '/zterm'
+                    # zero-coefficient terms ANYWHERE in the raw list (fixed defect F28: they used to be dropped only at
+                    # the end of the list; one that sorted last panicked): front, middle or end
+                    used.add(d); t.insert(rng.randrange(len(t) + 1), (d, 0)); flags += '/zterm'
         return [x for d, c in t for x in (d, c)], flags
 
     def of_dense(v):
